@@ -74,7 +74,9 @@ def check_tokens(r, w, root, fi, ps):
                 good = e.guard == 'except' or (e.guard == 'all')
                 if e.guard == 'all':
                     # acceptable only if the chosen token was removed from the list before (or nothing was chosen)
-                    removed = any(x.kind == 'lop' and x.op == 'remove' and x.d.get('listval') == e.iter_val for x in pa.events[:pa.events.index(e)])
+                    removed = any(x.kind == 'lop' and x.d.get('listval') == e.iter_val and
+                                  (x.op == 'remove' or (x.op == 'pop' and x.args and x.args[0][0] == 'lindex' and x.result == x.args[0][2]))
+                                  for x in pa.events[:pa.events.index(e)])
                     chosen = any(x.kind == 'lookup' and x.outcome == 'found' and x.d.get('src_val') == e.iter_val for x in pa.events[:pa.events.index(e)])
                     good = removed or not chosen
                 if not good and rec['ok']:
